@@ -26,7 +26,7 @@ m = {
     "setup_cmd": "./setup.sh",
     "hooks": {
         "guard": "verif",
-        "enable": "no hook is committed to /repo: every check builds the simulator from /repo's working tree with `go test -c -tags verif -overlay=<scratch>/overlay.json -modfile=<scratch>/go.mod .` (GOTOOLCHAIN=local go1.26.8); tools/simbuild writes the overlay (seam substitutions spliced at AST positions + export shims from /verif/overlay)",
+        "enable": "no hook is committed to /repo: every check builds the simulator from /repo's working tree with `go test -c -tags verif,verif_h_*,verif_o_* -overlay=<scratch>/overlay.json -modfile=<scratch>/go.mod .` (GOTOOLCHAIN=local go1.26.8); tools/simbuild writes the overlay (seam substitutions spliced at AST positions + export shims from /verif/overlay; the verif_h_* / verif_o_* tags select optional wiring hooks and exports of the overlay, each dropped with a BUILD-NOTE when the tree does not offer the shape it needs)",
         "baseline_off_cmd": "for m in $(cat /w/out/gomods.txt); do MF=$(cd /repo/$m && . /w/out/goenv.sh && gomodflag); (cd /repo/$m && go test $MF -json -vet=off -count=1 -timeout 25m ./...); done",
         "source_commits": [],
         "add_only": True,
